@@ -483,6 +483,21 @@ class LocalStorageBackend(StorageBackend):
         return LocalLockProvider(full_path, timeout)
 
 
+try:  # exceptions urllib3 raises below botocore's wrapping (TLS errors, ...)
+    from urllib3.exceptions import HTTPError as _Urllib3HTTPError
+except ImportError:  # pragma: no cover
+    class _Urllib3HTTPError(Exception):  # type: ignore[no-redef]
+        pass
+
+_STREAM_TRANSPORT_ERRORS = (BotoCoreError, OSError, _Urllib3HTTPError)
+
+
+def _is_integrity_error(exc: BaseException) -> bool:
+    """Checksum mismatches the SDK reports for a response body: not transport."""
+    names = {klass.__name__ for klass in type(exc).__mro__}
+    return bool(names & {"FlexibleChecksumError", "ChecksumError"})
+
+
 class S3FileStream:
     """Wrapper for S3 StreamingBody to support context manager protocol.
 
@@ -506,10 +521,12 @@ class S3FileStream:
             raise ValueError("I/O operation on closed S3 stream")
         try:
             data: bytes = self.body.read(n)
-        except (BotoCoreError, OSError) as e:
+        except _STREAM_TRANSPORT_ERRORS as e:
             # Transport failure while the body streams (connection reset, read
-            # timeout, truncated response). Anything else is not ours to mask.
-            if self._reopen is None:
+            # timeout, truncated response, TLS record error). Anything else -
+            # in particular the SDK's end-of-stream checksum mismatch - is not
+            # ours to mask: it means the bytes already handed out are wrong.
+            if self._reopen is None or _is_integrity_error(e):
                 raise
             logger.warning(f"S3 stream failed at offset {self._pos} ({e}); resuming")
             data = self._resume(n)
@@ -765,10 +782,27 @@ class S3StorageBackend(StorageBackend):
             broken stream). If-Match pins the version the stream started on: an
             object overwritten in between must not be spliced into it (412 is
             permanent and surfaces)."""
-            kwargs: Dict[str, Any] = {"Range": f"bytes={offset}-"}
-            if opened.get("etag"):
-                kwargs["IfMatch"] = opened["etag"]
-            response = self.s3.get_object(Bucket=self.bucket, Key=key, **kwargs)
+            if not opened.get("etag"):
+                # Nothing to pin the version on: resuming could splice another
+                # version into the stream. Give up (the original error surfaces
+                # as a permanent one).
+                raise ValueError(
+                    f"cannot resume the stream of s3://{self.bucket}/{key}: the first "
+                    f"response carried no ETag to pin the object version on"
+                )
+            response = self.s3.get_object(
+                Bucket=self.bucket, Key=key, Range=f"bytes={offset}-", IfMatch=opened["etag"]
+            )
+            # Providers that ignore If-Match on GET: compare what came back.
+            if response.get("ETag") not in (None, opened["etag"]):
+                try:
+                    response["Body"].close()
+                except Exception:
+                    pass
+                raise ValueError(
+                    f"s3://{self.bucket}/{key} changed while it was being streamed "
+                    f"(ETag {opened['etag']} -> {response.get('ETag')})"
+                )
             return response["Body"]
 
         def open_op() -> Any:
